@@ -281,7 +281,18 @@ class Engine(
                             # ... unless the skip_to relation is a Chain; we
                             # want to move the Projection inside the Chain, to
                             # make it easier to avoid subqueries in UNION [ALL]
-                            # constructs later.
+                            # constructs later.  That is only possible if the
+                            # existing Sort does not need the columns being
+                            # dropped; otherwise the UNION [ALL] has to become
+                            # a subquery that is sorted and sliced outside.
+                            if not select.sort.columns_required <= operation.columns:
+                                subquery = select.reapply_skip(sort=None, slice=None)
+                                return Select.apply_skip(
+                                    subquery,
+                                    projection=operation,
+                                    sort=select.sort,
+                                    slice=select.slice,
+                                )
                             return select.reapply_skip(
                                 skip_to=chain._finish_apply(operation.apply(lhs), operation.apply(rhs)),
                                 projection=None,
